@@ -137,6 +137,12 @@ def run(rep, tier, props):
                             _emit(rep, dict(sig='C11:solution-violates-program:%s:%s' % (clause, tag), prop='C11',
                                             what='returned vector violates the compiled program (%s; TLC, exact up to rounding)' % clause, run=run_, **detail), props)
             else:
+                if run_['iface'] == 'def' and run_.get('solver_status') == '0':
+                    # SciPy/HiGHS said "optimal" (status 0) and handed back NaN entries: rsome reports no solution, which is the safe
+                    # reading of an unusable answer of the external solver - not a disagreement between interfaces
+                    stats['scipy_status0_without_solution'] = stats.get('scipy_status0_without_solution', 0) + 1
+                    rep.inconclusive += 1
+                    continue
                 fails.append(run_)
                 if not run_.get('x_is_none') or run_.get('get') != 'raised' or run_.get('xget') != 'raised':
                     _emit(rep, dict(sig='C11:failure-not-reported-as-no-solution:%s' % tag, prop='C11',
